@@ -133,6 +133,8 @@ def run(ctx):
         for j in range(rng.randint(1, 3)):
             leaf = rng.choice(leaves)
             key = leaf if rng.random() < 0.5 else mutate(rng, leaf)
+            if key != leaf and [c.lstrip("_") for c in key] == list(leaf):
+                key = leaf          # private twins (..._quantum_efficiency) are not generated (see assumptions)
             path = "override" if j < 2 and rng.random() < 0.6 else "sweep"
             f = leaf[-1]
             if path == "sweep" and f in ("row", "col"):
